@@ -30,7 +30,7 @@ fuzz_target!(|data: &[u8]| {
     let r = match o {
         "C01" => c01::C01.run(&c01::Case::Pair(sc.clone())),
         "C12" => c12::C12.run(&sc),
-        "C20" => c20::C20.run(&sc),
+        "C20" => c20::C20.run(&c20::Case::Pair(sc.clone())),
         _ => c02::C02.run(&c02::Case::Pair(sc.clone())),
     };
     if let Some(v) = r.violation {
